@@ -403,4 +403,13 @@ example : gHistOk (updateConfig {} [(R, [lim [("mem", 20)] 0 [] ["g1"]])], [])
     change b ∈ userAllocs (List.erase [(("u1", ⟨"app1", RA, [("mem", 2)]⟩) : String × Alloc)] ("u1", ⟨"app1", RA, [("mem", 2)]⟩)) "u1" at hb
     rw [this] at hb; cases hb
 
+/-- fall back from a named limit to an UNCHANGED wildcard limit (corpus/C05/ugm-fallback-to-unchanged-wildcard.jsonl): u1 is
+    named on root beside a wildcard limit and runs app1 in root.a; the reload drops the named limit and repeats the wildcard
+    entry as it was: the limit in force for u1 on root is the wildcard limit of the latest configuration, and its headroom
+    is counted against it -/
+example : inForceUser (run {} [.conf [(R, [lim [("mem", 9)] 0 ["u1"] [], lim [("mem", 5)] 2 ["*"] []]), (RA, [])],
+     .inc RA "app1" [("mem", 3)] "u1" [], .conf [(R, [lim [("mem", 5)] 2 ["*"] []]), (RA, [])]]) "u1" R = (some [("mem", 5)], 2) := by decide
+example : (headroomM (run {} [.conf [(R, [lim [("mem", 9)] 0 ["u1"] [], lim [("mem", 5)] 2 ["*"] []]), (RA, [])],
+     .inc RA "app1" [("mem", 3)] "u1" [], .conf [(R, [lim [("mem", 5)] 2 ["*"] []]), (RA, [])]]) RA "app1" "u1" []).2 = some [("mem", 2)] := by decide
+
 end Yk.C05
